@@ -253,6 +253,41 @@ func TestC32_PendingHandshake(t *testing.T) {
 				if len(want) < min(nq, 100) {
 					label = append(label, "queue-partly-filtered")
 				}
+				// second phase: a re-handshake is pending (the network lets none of its messages through)
+				// while the established tunnel dies underneath it: the peer forgot the tunnel and answers
+				// data with recv_error. The pending handshake must still run its course and be abandoned
+				// with all of its state removed.
+				if rapid.Bool().Draw(rt, "secondPhase") {
+					b.ctrl.CloseTunnel(addrA, true)
+					a.ctrl.ReHandshake(addrB)
+					s.settle()
+					s.injectTun(a, nsUDP4(addrA, addrB, 30000, 443, []byte("VERIFTAG-900000-0-1|after-peer-forgot")))
+					attempts2 := 0
+					for el := time.Duration(0); el < deadline+2*time.Second; el += step {
+						s.settle()
+						for _, p := range s.takeInflight() {
+							hd, ok := nsHeaderOf(p.Data)
+							if ok && p.Src == a.idx && hd.Type == header.Handshake && hd.MessageCounter == 1 {
+								attempts2++
+								continue // lost
+							}
+							if ok && p.Src == b.idx && hd.Type == header.Handshake {
+								continue // b's own attempts are not the subject here
+							}
+							h.deliverPkt(p)
+						}
+						w.checkPending(rt)
+						time.Sleep(step)
+					}
+					hs := a.ctrl.f.handshakeManager
+					hs.RLock()
+					np, ni := len(hs.vpnIps), len(hs.indexes)
+					hs.RUnlock()
+					if np != 0 || ni != 0 {
+						rt.Fatalf("a re-handshake that was never answered left pending state behind after its retry budget (%d address entries, %d index entries, %d attempts seen)\n%s", np, ni, attempts2, desc)
+					}
+					label = append(label, "rehandshake-abandoned-after-recv-error")
+				}
 			}
 			if nq > 100 {
 				label = append(label, "queue-overflow")
